@@ -567,14 +567,6 @@ impl<T: Clone, U: TryFrom<T>> TryFrom<&Arr2D<T>> for Arr2D<U> {
     type Error = Arr2DError;
 
     fn try_from(arr: &Arr2D<T>) -> Result<Self, Self::Error> {
-        if arr.is_empty() {
-            return Ok(Self {
-                inner: vec![],
-                height: 0,
-                width: 0,
-            });
-        }
-
         let mut inner = Vec::with_capacity(arr.inner.len());
         for x in &arr.inner {
             inner.push(
